@@ -57,6 +57,10 @@ def account(res, H, nontrivial=None):
 def judge(res, H, oracle_ids, scn, kind='solve', extra=None):
     """Apply the selected oracles; record violations with the scenario that produced them."""
     found = []
+    if H.timeout:
+        res['timeouts'] = res.get('timeouts', 0) + 1
+        res.setdefault('timeout_scenarios', []).append(scn)
+        return found
     for oid in oracle_ids:
         if oid == 'insitu':
             continue
@@ -76,11 +80,24 @@ def judge(res, H, oracle_ids, scn, kind='solve', extra=None):
         rec = dict(v)
         rec['scenario'] = scn
         rec['kind'] = kind
-        rec['features'] = S.features(scn)
+        rec['features'] = S.features(scn) + run_facts(H)
         if extra:
             rec.update(extra)
         res['violations'].append(rec)
     return found
+
+
+def run_facts(H):
+    """Facts of the run (not of the scenario) that known-finding entries may require."""
+    f = []
+    with np.errstate(all='ignore'):
+        if any(c.reply is not None and not np.isfinite(O.Fvalue(H, c.reply, c.x)) for c in H.calls):
+            f.append('run:nonfinite_F')
+        if any(c.reply is not None and np.any(np.abs(c.reply) > 1e50) for c in H.calls):
+            f.append('run:huge_values')
+    if H.exc is not None:
+        f.append('run:raised')
+    return f
 
 
 def sample_of(scn, H):
